@@ -6,6 +6,28 @@ M = []
 def m(prop, name, file, find, replace, rule, construct, note=""):
     M.append(dict(property=prop, name=name, file=file, find=find, replace=replace, expect_rule=rule, expect_construct=construct, note=note))
 
+def from_patch(prop, name, patch, rule, construct, note=""):
+    """one edit per hunk: find = old side (context + removed lines), replace = new side (context + added lines)"""
+    edits=[]; cur=None; old=[]; new=[]
+    def flush():
+        if cur and (old or new):
+            edits.append(dict(file=cur, find="".join(old), replace="".join(new)))
+    for ln in open(os.path.join(os.path.dirname(os.path.abspath(__file__)), "..", patch)):
+        if ln.startswith("diff --git"):
+            flush(); old=[]; new=[]; cur=None
+        elif ln.startswith("+++ b/"):
+            cur=ln[6:].strip()
+        elif ln.startswith("--- ") or ln.startswith("index "):
+            pass
+        elif ln.startswith("@@"):
+            flush(); old=[]; new=[]
+        elif cur is not None:
+            if ln.startswith("+"): new.append(ln[1:])
+            elif ln.startswith("-"): old.append(ln[1:])
+            elif ln.startswith(" "): old.append(ln[1:]); new.append(ln[1:])
+    flush()
+    M.append(dict(property=prop, name=name, file="", find="", replace="", edits=edits, expect_rule=rule, expect_construct=construct, note=note))
+
 # ---- C08
 m("C08","buy-drop-listing-owner-check","x/rns/keeper/msg_server_buy.go",
   'if sale.Owner != name.Value {','if sale.Owner != sale.Owner {',"C08/R1","rns.MsgBuy:listing-by-current-owner","inverse of fix F8")
@@ -652,6 +674,28 @@ m("C05","endblock-does-work","x/oracle/module.go",
   'func (am AppModule) EndBlock(_ sdk.Context, _ abci.RequestEndBlock) []abci.ValidatorUpdate {','func (am AppModule) EndBlock(ctx sdk.Context, _ abci.RequestEndBlock) []abci.ValidatorUpdate {\n	_ = am.keeper.GetAllFeeds(ctx)',"C05/R0","endblock:empty")
 m("C05","mustnewdec-on-variable","x/storage/keeper/rewards.go",
   'networkValue := sdk.NewDec(totalSize)','networkValue := sdk.MustNewDecFromStr(fmt.Sprintf("%d", totalSize))',"C05/R4","MustNewDecFromStr")
+
+# ---- mutants distilled from independent seeded changes (see /verif/seeded)
+m("C04","referrer-compared-with-beneficiary","x/storage/keeper/msg_server_buy_storage.go",
+  'if !(refAcc.String() == msg.Creator) {','if !refAcc.Equals(forAddress) {',"C04/R6","referrer-distinct-from-signer","seed C04-self-referral-via-foraddress")
+m("C04","referred-without-resolution","x/storage/keeper/msg_server_buy_storage.go",
+  """	if err == nil {
+		if !(refAcc.String() == msg.Creator) {
+			referred = true
+		}
+	}""","""	if !(refAcc.String() == msg.Creator) {
+		referred = true
+	}
+	_ = err""","C04/R6","referrer-resolved")
+from_patch("C09","seed-rebid-lookup-before-lowercase","seeded/C09-rebid-lookup-before-lowercase/patch.diff","C09/R3","lookup-key=written-key","seed")
+from_patch("C03","seed-shared-prover-buffer","seeded/C03-shared-prover-buffer/patch.diff","C03/R5","iterated-list=file-list","seed")
+from_patch("C08","seed-stale-listing-after-reregistration","seeded/C08-stale-listing-after-reregistration/patch.diff","C08/R1","rns.MsgBuy:listing-by-current-owner","seed")
+m("C14","attest-refreshes-signer-proof","x/storage/keeper/msg_server_attest.go",
+  'proof, err := deal.GetProver(ctx, k, form.Prover)','proof, err := deal.GetProver(ctx, k, creator)',"C14/R5","storage.MsgAttest:acts-on-form-prover","seed C01-attest-refreshes-attester")
+m("C14","report-removes-signer","x/storage/keeper/msg_server_report.go",
+  'deal.RemoveProver(ctx, k, prover)','deal.RemoveProver(ctx, k, creator)',"C14/R5","storage.MsgReport:acts-on-form-prover")
+m("C07","plan-loaded-by-payer","x/storage/keeper/msg_server_buy_storage.go",
+  'payInfo, found := k.GetStoragePaymentInfo(ctx, forAddress.String())','payInfo, found := k.GetStoragePaymentInfo(ctx, msg.Creator)',"C07/R4","loaded-plan=written-plan","seed C07-plan-loaded-by-payer")
 
 for x in M:
     d = os.path.join(os.path.dirname(os.path.abspath(__file__)), x["property"])
